@@ -52,7 +52,6 @@ package posix
 //@   at-call posix.tmpfile.link {C06} [publication-after-body] requires bodyRead
 //@   at-call posix.tmpfile.link {C06} [published-only-with-exactly-the-declared-bytes] requires result("io.Copy", 0) == declared
 
-
 // ---- C16: bucket deletion and listing -----------------------------------------------------------
 //@ func (*Posix) versioningEnabled
 //@   pure
